@@ -65,7 +65,8 @@ def main():
     if not quick:
         items6 += [('plain', 3, [None], ['bindings/'], ['empty'], (e, t)) for e in range(3) for t in range(3)]
     cand6 = []
-    for r in par.pmap(c06.explore, items6):
+    sym6 = [('plain', a, b) for a, b in (((0, 0), (0, 1)), ((0, 1), (0, 0)), ((2, 2), (0, 1)), ((0, 1), (2, 2)))]
+    for r in par.pmap(c06.explore, items6) + par.pmap(c06.explore_symlink, sym6):
         cand6 += r.pop('violations', [])
         rep.absorb(r)
     seen6 = {}
@@ -80,7 +81,7 @@ def main():
                                    'witness': c, 'key': 'history/' + c['why'][:60]})
         else:
             rep.inconclusive.append(f'engine counterexample does not reproduce natively: {c["why"]} {c["steps"]}')
-    rep.bounds['call_histories'] = 'every history of 2 (thorough: 3) entry-point calls over the C06 universe, default directory spelling (reduced C06 cells)'
+    rep.bounds['call_histories'] = 'every history of 2 (thorough: 3) entry-point calls over the C06 universe, default directory spelling, plus 4 with the export directory behind a symlink (reduced C06 cells)'
     rep.bounds['shared_file_orders'] = 'K=2 and K=3 types, every permutation, canonical file after every prefix (reduced C05 cells)'
     rep.outside += ['independent compilations / fresh macro processes as such', 'hash-order dependence inside the derive that changes a '
                     'generated *string* (only visit order and where-clause order consume Dependencies\' HashSet order at the pinned commit)',
